@@ -70,10 +70,16 @@ def f2(run: Run, prog: Program):
     body = f.node.body
     thr = None
     diag = None
+    from .idioms import inline_locals
+    thr_cmp = None
     for i, st in enumerate(body):
-        if isinstance(st, ast.Assign) and isinstance(st.targets[0], ast.Subscript) and \
-                isinstance(st.targets[0].slice, ast.Compare):
-            thr = (i, st)
+        if isinstance(st, ast.Assign) and isinstance(st.targets[0], ast.Subscript):
+            # the mask may be written in place or bound to a local first
+            sl = inline_locals(f.node, st.targets[0].slice)
+            if isinstance(sl, ast.Compare) and isinstance(st.value, ast.Constant) and \
+                    st.value.value == 1:
+                thr = (i, st)
+                thr_cmp = sl
         if diagonal_clear_target(st) is not None:
             diag = (i, st)
     ret = [st for st in body if isinstance(st, ast.Return)]
@@ -84,7 +90,7 @@ def f2(run: Run, prog: Program):
                 f"{f.qualname}: thresholding store `A[similarity > threshold] = 1` "
                 f"not found")
         return
-    cmp_ = thr[1].targets[0].slice
+    cmp_ = thr_cmp
     strict = isinstance(cmp_.ops[0], ast.Gt) and \
         ast.unparse(cmp_.left) == f.params[1] and \
         ast.unparse(cmp_.comparators[0]) == f.params[2]
@@ -119,11 +125,18 @@ def f2(run: Run, prog: Program):
         defs = [n for n in ast.walk(st_.node) if isinstance(n, ast.Assign)
                 and isinstance(n.targets[0], ast.Name) and isinstance(a, ast.Name)
                 and n.targets[0].id == a.id]
-        okf = bool(defs) and all(
-            isinstance(d.value, ast.Call) and
-            ast.unparse(d.value.func) in ("self._calculate_threshold_adjacency",
-                                          "self._calculate_non_local_adjacency")
-            for d in defs)
+        FUNNEL = ("self._calculate_threshold_adjacency",
+                  "self._calculate_non_local_adjacency")
+
+        def _funnel_callee(fn_):
+            # the method itself, or a local / conditional expression choosing
+            # between the two thresholding variants
+            fn_ = inline_locals(st_.node, fn_)
+            if isinstance(fn_, ast.IfExp):
+                return _funnel_callee(fn_.body) and _funnel_callee(fn_.orelse)
+            return ast.unparse(fn_) in FUNNEL
+        okf = bool(defs) and all(isinstance(d.value, ast.Call) and
+                                 _funnel_callee(d.value.func) for d in defs)
         run.oblige("F2", "funnel", okf, sample={
             "where": f"{st_.module.relpath}:{c.lineno}",
             "defs": [ast.unparse(d.value)[:60] for d in defs]})
